@@ -1198,3 +1198,150 @@ func checkFactoriesWireCollaborators(c *Ctx, rule string) {
 	sort.Strings(bad)
 	c.Check(len(bad) == 0, rule, role, nil, "collaborators-wired", "every interface-typed field that a method of the returned handler invokes is assigned by the factory", strings.Join(bad, "; "), nil)
 }
+
+// The request context is handed down. Every storage call, configuration getter,
+// strategy and key getter takes a context; the embedding server uses it to carry
+// the transaction, the tenant / network, deadlines and cancellation, and the
+// configuration and key providers may answer per context. A function that
+// receives a context passes that context (or one derived from it: WithValue,
+// the context MaybeBeginTx returns, a tracing span) to everything it calls —
+// never a fresh context.Background()/TODO(), fosite.NewContext() or the raw
+// http.Request.Context(), which silently drop what the caller put in.
+func checkContextPropagated(c *Ctx, rule string) {
+	const role = "context-propagation"
+	isCtx := func(t types.Type) bool { return t != nil && t.String() == "context.Context" }
+	n := 0
+	var bad []string
+	for _, fn := range c.P.AllFuncs {
+		if fn.Pkg == nil || !isSubjectPkg(fn.Pkg.Pkg.Path()) || len(fn.Blocks) == 0 {
+			continue
+		}
+		has := false
+		for f := fn; f != nil && !has; f = f.Parent() {
+			for _, p := range f.Params {
+				if isCtx(p.Type()) {
+					has = true
+				}
+			}
+		}
+		if !has {
+			continue
+		}
+		var fresh func(v ssa.Value, depth int, seen map[ssa.Value]bool) string
+		fresh = func(v ssa.Value, depth int, seen map[ssa.Value]bool) string {
+			if depth > 8 || seen[v] {
+				return ""
+			}
+			seen[v] = true
+			switch x := v.(type) {
+			case *ssa.Call:
+				if cal := x.Common().StaticCallee(); cal != nil {
+					full := cal.String()
+					switch {
+					case full == "context.Background" || full == "context.TODO" || full == pkgRoot+".NewContext":
+						return full + "()"
+					case cal.Name() == "Context" && cal.Signature.Recv() != nil && strings.HasSuffix(cal.Signature.Recv().Type().String(), "net/http.Request"):
+						return "http.Request.Context()"
+					}
+				}
+				for _, a := range x.Common().Args {
+					if isCtx(a.Type()) {
+						if s := fresh(a, depth+1, seen); s != "" {
+							return s
+						}
+					}
+				}
+			case *ssa.Extract:
+				return fresh(x.Tuple, depth+1, seen)
+			case *ssa.Phi:
+				for _, e := range x.Edges {
+					if s := fresh(e, depth+1, seen); s != "" {
+						return s
+					}
+				}
+			case *ssa.UnOp:
+				if al, ok := x.X.(*ssa.Alloc); ok {
+					for _, r := range *al.Referrers() {
+						if st, ok := r.(*ssa.Store); ok && st.Addr == ssa.Value(al) {
+							if s := fresh(st.Val, depth+1, seen); s != "" {
+								return s
+							}
+						}
+					}
+				}
+			case *ssa.MakeInterface:
+				return fresh(x.X, depth+1, seen)
+			case *ssa.ChangeInterface:
+				return fresh(x.X, depth+1, seen)
+			}
+			return ""
+		}
+		for _, b := range fn.Blocks {
+			for _, ins := range b.Instrs {
+				ci, ok := ins.(ssa.CallInstruction)
+				if !ok {
+					continue
+				}
+				for _, a := range ci.Common().Args {
+					if !isCtx(a.Type()) {
+						continue
+					}
+					n++
+					if s := fresh(a, 0, map[ssa.Value]bool{}); s != "" {
+						bad = append(bad, fmt.Sprintf("%s passes %s down at %s", short(fn.String()), s, c.P.Pos(ins.Pos())))
+					}
+				}
+			}
+		}
+	}
+	if n < 200 {
+		c.RoleUnmatched(rule, role, fmt.Sprintf("at least 200 context arguments at call sites of functions that receive a context; found %d", n))
+		return
+	}
+	sort.Strings(bad)
+	c.Check(len(bad) == 0, rule, role, nil, "context-propagated", fmt.Sprintf("at all %d call sites inside functions that receive a context, the context passed down derives from the function's own", n), strings.Join(bad, "; "), nil)
+}
+
+// JWTClaims.With installs what it is given. The JWT access-token strategy
+// renders a token from session.GetJWTClaims().With(expiry, grantedScopes,
+// grantedAudience): the three arguments are what the handler computed for this
+// token. With must overwrite all three unconditionally — a "fill only when
+// unset / when non-empty" variant lets a value already sitting in the session's
+// claims (the application's, or the previous token's after With mutated the
+// shared object) win over the grant and over the advertised expiry.
+func checkClaimsWith(c *Ctx, rule string) {
+	const role = "claims-with"
+	fn := c.P.Func("(*" + pkgJWT + ".JWTClaims).With")
+	if fn == nil {
+		c.RoleUnmatched(rule, role, "(*jwt.JWTClaims).With")
+		return
+	}
+	ex := c.Explore(fn, ExploreConfig{}, "claims")
+	if !c.complete(ex, rule, role, fn) {
+		return
+	}
+	want := map[string]*Term{"ExpiresAt": paramNamed(fn, 1), "Scope": paramNamed(fn, 2), "Audience": paramNamed(fn, 3)}
+	ok, n := true, 0
+	why := ""
+	var w *Path
+	for _, p := range ex.Paths {
+		if p.Kind != "return" {
+			continue
+		}
+		n++
+		got := map[string]bool{}
+		for _, e := range p.Events {
+			if (e.Kind == "store" || e.Kind == "lstore") && len(e.Args) == 2 {
+				if v, isW := want[e.Name]; isW && e.Args[1].Key() == v.Key() {
+					got[e.Name] = true
+				}
+			}
+		}
+		for f := range want {
+			if !got[f] {
+				ok, w, why = false, p, "a path returns without "+f+" having been set to the corresponding argument"
+			}
+		}
+	}
+	c.Check(ok && n > 0, rule, role, fn, "with-installs-arguments", "JWTClaims.With sets ExpiresAt, Scope and Audience to its arguments on every path", why, w)
+}
